@@ -34,7 +34,6 @@ From RtoscV Require Import Save.TopoModel Save.SaveModel.
 Import ListNotations.
 Local Open Scope Z_scope.
 
-Module SM := SugarModel.
 
 (* ---- the tree ---------------------------------------------------------------- *)
 Record leafdata := {
@@ -150,24 +149,24 @@ Definition elem_addr (p : port) (k : nat) : str :=
   if p_array p then p_path p ++ dec (Z.of_nat k) else p_path p.
 
 (* ---- one message: value <-> OSC argument, field <-> the callback's variable -------- *)
-Definition enc_arg (v : scalar) : SM.arg :=
+Definition enc_arg (v : scalar) : SugarModel.arg :=
   match v with
-  | VI z => SM.Ai z | VC z => SM.Ac z | VF b => SM.Af b
-  | VT true => SM.ATrue | VT false => SM.AFalse
-  | VS s => SM.As s | VSym s => SM.ASy s
+  | VI z => SugarModel.Ai z | VC z => SugarModel.Ac z | VF b => SugarModel.Af b
+  | VT true => SugarModel.ATrue | VT false => SugarModel.AFalse
+  | VS s => SugarModel.As s | VSym s => SugarModel.ASy s
   end.
-Definition tag_of (v : scalar) : str := [SM.tag (enc_arg v)].
+Definition tag_of (v : scalar) : str := [SugarModel.tag (enc_arg v)].
 
 (* which macro made the leaf *)
-Definition ckind (k : skind) (arr : bool) : SM.kind :=
+Definition ckind (k : skind) (arr : bool) : SugarModel.kind :=
   match k with
-  | KC => SM.KP
-  | KI => SM.KI
-  | KB => SM.KAI
-  | KF => if arr then SM.KAF else SM.KF
-  | KT => if arr then SM.KAT else SM.KT
-  | KO => if arr then SM.KAO else SM.KO
-  | KS cap => SM.KS (Z.of_nat cap)
+  | KC => SugarModel.KP
+  | KI => SugarModel.KI
+  | KB => SugarModel.KAI
+  | KF => if arr then SugarModel.KAF else SugarModel.KF
+  | KT => if arr then SugarModel.KAT else SugarModel.KT
+  | KO => if arr then SugarModel.KAO else SugarModel.KO
+  | KS cap => SugarModel.KS (Z.of_nat cap)
   end.
 (* kinds and '#N' as the macros combine them *)
 Definition kind_shape (k : skind) (arr : bool) : bool :=
@@ -177,9 +176,9 @@ Definition kind_shape (k : skind) (arr : bool) : bool :=
   | _ => true
   end.
 
-Definition cenv (nm : str) (arr : option nat) (d : leafdata) : SM.penv :=
-  {| SM.p_name := nm; SM.p_hash := is_some arr; SM.p_min := ld_min d; SM.p_max := ld_max d;
-     SM.p_map := ld_opts d |}.
+Definition cenv (nm : str) (arr : option nat) (d : leafdata) : SugarModel.penv :=
+  {| SugarModel.p_name := nm; SugarModel.p_hash := is_some arr; SugarModel.p_min := ld_min d; SugarModel.p_max := ld_max d;
+     SugarModel.p_map := ld_opts d |}.
 
 (* the variable behind a port as the callback model sees it: numbers (toggles 0/1,
    floats as bit patterns), a string as its buffer of [cap] bytes *)
@@ -198,7 +197,7 @@ Definition enc_field (k : skind) (v : value) : list Z :=
   end.
 Definition dec_elem (k : skind) (zs : list Z) (j : nat) : option scalar :=
   match k with
-  | KS _ => match SM.cstr zs with Some s => Some (VS s) | None => None end
+  | KS _ => match SugarModel.cstr zs with Some s => Some (VS s) | None => None end
   | KC => option_map VC (nth_error zs j)
   | KF => option_map VF (nth_error zs j)
   | KT => option_map (fun z => VT (negb (z =? 0))) (nth_error zs j)
@@ -222,10 +221,10 @@ Definition leaf_cb (a : app) (path nm : str) (arr : option nat) (d : leafdata)
   let i := idx_of (map p_path a) path in
   let k := ld_kind d in
   let e := cenv nm arr d in
-  match SM.step (ckind k (is_some arr)) e loc msg (enc_field k (val_at s i)) [enc_arg arg] with
+  match SugarModel.step (ckind k (is_some arr)) e loc msg (enc_field k (val_at s i)) [enc_arg arg] with
   | None => None
   | Some (zs, _) =>
-      let j := match arr with Some _ => Z.to_nat (SM.boils_idx e msg) | None => O end in
+      let j := match arr with Some _ => Z.to_nat (SugarModel.boils_idx e msg) | None => O end in
       match dec_elem k zs j with
       | Some v' => Some (commit a s i j v')
       | None => None
